@@ -129,8 +129,24 @@ Lemma sc_enabled s b : same_core s (upd_enabled s b).  Proof. sc_basic. Qed.
 Lemma sc_sol_buf s b : same_core s (upd_sol_buf s b).  Proof. sc_basic. Qed.
 Lemma sc_select s b : same_core s (upd_select s b).  Proof. sc_basic. Qed.
 Lemma sc_last_recorded s b : same_core s (upd_last_recorded s b).  Proof. sc_basic. Qed.
+Lemma sc_bcast_rep s b : same_core s (upd_bcast_rep s b).  Proof. sc_basic. Qed.
+Lemma sc_bcast_new s b r : same_core s (upd_bcast_rep (upd_last_bcast s b) r).  Proof. sc_basic. Qed.
 
-#[global] Hint Resolve sc_refl sc_pop sc_last_bcast sc_restart sc_enabled sc_sol_buf sc_select sc_last_recorded : sc.
+(* fix F25: the bookkeeping of which response reported a confirm-mandatory broadcast touches only
+   s_bcast_rep and (on the matching confirm) s_last_bcast *)
+Lemma sc_bcast_reported s c : same_core s (bcast_reported s c).
+Proof. unfold bcast_reported. destruct (s_last_bcast s) as [[]|]; try apply sc_refl. apply sc_bcast_rep. Qed.
+Lemma sc_bcast_confirmed s u q : same_core s (bcast_confirmed s u q).
+Proof. unfold bcast_confirmed. destruct (rep_eqb _ _ _); [sc_basic|apply sc_refl]. Qed.
+Lemma bcast_reported_sol_buf s c : s_sol_buf (bcast_reported s c) = s_sol_buf s.
+Proof. unfold bcast_reported. destruct (s_last_bcast s) as [[]|]; reflexivity. Qed.
+Lemma bcast_reported_unsol_buf s c : s_unsol_buf (bcast_reported s c) = s_unsol_buf s.
+Proof. unfold bcast_reported. destruct (s_last_bcast s) as [[]|]; reflexivity. Qed.
+Lemma bcast_reported_last_bcast s c : s_last_bcast (bcast_reported s c) = s_last_bcast s.
+Proof. unfold bcast_reported. destruct (s_last_bcast s) as [[]|] eqn:E; cbn; auto. Qed.
+
+#[global] Hint Resolve sc_refl sc_pop sc_last_bcast sc_restart sc_enabled sc_sol_buf sc_select sc_last_recorded
+  sc_bcast_rep sc_bcast_new sc_bcast_reported sc_bcast_confirmed : sc.
 
 (* observations that are not transmissions *)
 Definition no_tx (o : oobs) : Prop := match o with OTx _ _ => False | _ => True end.
@@ -187,8 +203,9 @@ Proof.
   unfold write_solicited. destruct (response_iin s) as [[s' iin] o'] eqn:E.
   apply response_iin_spec in E. destruct E as [E1 E2].
   intros H. inversion H; subst; clear H.
-  split; [exact E1|]. split; [exists o'; split; [reflexivity|exact E2]|].
-  destruct (s_last_bcast s1) as [[]|]; cbn [with_ctl or_iin r_fn r_size r_ctl r_iin2]; repeat split; eauto.
+  split; [eapply sc_trans; [exact E1|apply sc_bcast_reported]|].
+  split; [exists o'; split; [rewrite bcast_reported_sol_buf; reflexivity|exact E2]|].
+  destruct (s_last_bcast s') as [[]|]; cbn [with_ctl or_iin r_fn r_size r_ctl r_iin2]; repeat split; eauto.
 Qed.
 
 Lemma write_unsolicited_spec cfg s r s1 r2 o :
@@ -200,7 +217,8 @@ Proof.
   unfold write_unsolicited. destruct (response_iin s) as [[s' iin] o'] eqn:E.
   apply response_iin_spec in E. destruct E as [E1 E2].
   intros H. inversion H; subst; clear H.
-  split; [exact E1|]. split; [exists o'; split; [reflexivity|exact E2]|].
+  split; [eapply sc_trans; [exact E1|apply sc_bcast_reported]|].
+  split; [exists o'; split; [rewrite bcast_reported_unsol_buf; reflexivity|exact E2]|].
   cbn [or_iin r_fn r_size r_ctl]. auto.
 Qed.
 
@@ -971,12 +989,12 @@ Proof.
   { intros H; inversion H; subst. split; [eauto with sc | notx2]. }
   destruct obj as [e|hdrs rh].
   { intros H; inversion H; subst. split; [eauto with sc | notx2]. }
-  assert (S0 : same_core s (upd_last_bcast s (Some m))) by eauto with sc.
+  assert (S0 : same_core s (upd_bcast_rep (upd_last_bcast s (Some m)) None)) by eauto with sc.
   repeat match goal with |- (if ?c then _ else _) = _ -> _ => destruct c end.
-  - destruct (handle_write_headers cfg (upd_last_bcast s (Some m)) hdrs) as [[s' v] o'] eqn:E.
+  - destruct (handle_write_headers cfg (upd_bcast_rep (upd_last_bcast s (Some m)) None) hdrs) as [[s' v] o'] eqn:E.
     apply handle_write_headers_spec in E. destruct E as [E1 E2].
     intros H; inversion H; subst. split; [eauto using sc_trans | notx2].
-  - destruct (handle_controls cfg (upd_last_bcast s (Some m)) fn (ctl_seq ctl) fid bytes hdrs) as [[s' r'] o'] eqn:E.
+  - destruct (handle_controls cfg (upd_bcast_rep (upd_last_bcast s (Some m)) None) fn (ctl_seq ctl) fid bytes hdrs) as [[s' r'] o'] eqn:E.
     apply handle_controls_spec in E. destruct E as (E1 & E2 & _).
     intros H; inversion H; subst. split; [eauto using sc_trans | notx2].
   - pose proof (handle_freeze_notx cfg 0 hdrs) as Hn. destruct (handle_freeze cfg 0 hdrs) as [v o'].
@@ -986,10 +1004,10 @@ Proof.
   - pose proof (handle_freeze_at_time_notx cfg hdrs None) as Hn. destruct (handle_freeze_at_time cfg None hdrs) as [v o'].
     intros H; inversion H; subst. split; [exact S0 | notx2].
   - intros H; inversion H; subst. split; [eauto using sc_trans with sc | notx2].
-  - destruct (enable_disable cfg (upd_last_bcast s (Some m)) false (ctl_seq ctl) hdrs) as [s' r'] eqn:E.
+  - destruct (enable_disable cfg (upd_bcast_rep (upd_last_bcast s (Some m)) None) false (ctl_seq ctl) hdrs) as [s' r'] eqn:E.
     apply enable_disable_spec in E. destruct E as [E1 _].
     intros H; inversion H; subst. split; [eauto using sc_trans | notx2].
-  - destruct (enable_disable cfg (upd_last_bcast s (Some m)) true (ctl_seq ctl) hdrs) as [s' r'] eqn:E.
+  - destruct (enable_disable cfg (upd_bcast_rep (upd_last_bcast s (Some m)) None) true (ctl_seq ctl) hdrs) as [s' r'] eqn:E.
     apply enable_disable_spec in E. destruct E as [E1 _].
     intros H; inversion H; subst. split; [eauto using sc_trans | notx2].
   - intros H; inversion H; subst. split; [exact S0 | notx2].
@@ -1124,10 +1142,11 @@ Proof.
       apply process_broadcast_spec in E. destruct E as [E _].
       intros H; inversion H; subst. split; [apply uw_trans with (upd_deferred s None); [apply uw_upd_deferred|apply uw_of_sc; exact E]|]. intros C; contradiction.
     + intros H. split.
-      * destruct (s_last_bcast s) as [[]|]; inversion H; subst; auto using uw_refl, uw_upd_last_bcast.
+      * inversion H; subst. apply uw_of_sc, sc_bcast_confirmed.
       * inversion H; subst. intros C; contradiction.
     + destruct (q =? ctl_seq (r_ctl resp)); intros H; inversion H; subst.
-      * split; [apply uw_upd_last_bcast|]. intros _. left. reflexivity.
+      * split; [apply uw_of_sc, sc_bcast_confirmed|]. intros _. left.
+        destruct (sc_bcast_confirmed s true q) as (_ & _ & _ & _ & _ & Hd & _). exact Hd.
       * split; [apply uw_refl|]. intros C; contradiction.
 Qed.
 
